@@ -796,8 +796,18 @@ pub(crate) fn check_if_response_is_matched(
         }
     }
 
-    // The last n headers should end at the parent of the last header.
-    if last_n_count > 0 {
+    // The last n headers should NOT be empty when there are blocks since the start block, and
+    // should end at the parent of the last header.
+    if last_n_count == 0 {
+        let last_number = last_header.header().number();
+        if start_number < last_number {
+            let errmsg = format!(
+                "all {} headers are before the start block#{}, the last n blocks before                 block#{} are missing",
+                total_count, start_number, last_number
+            );
+            return Err(StatusCode::MalformedProtocolMessage.with_context(errmsg));
+        }
+    } else {
         let last_last_n_header_number = headers[headers.len() - 1].header().number();
         let last_number = last_header.header().number();
         if last_number.checked_sub(1) != Some(last_last_n_header_number) {
